@@ -129,6 +129,10 @@ def _decide(h, meta, cfg, r):
     r['symex_s'] += engine.make_goto(meta['goto_file'], meta['mangled_name'], goto)
     st, out, secs = engine.dump_smt(goto, h['unwind'], smt, cfg['symex_cap'], not h.get('nounwindassert'))
     r['symex_s'] = round(r['symex_s'] + secs, 2)
+    if st == 'resource':
+        r['verdict'] = 'undecided'
+        r['detail'] = 'symbolic execution did not finish within the time / memory cap: ' + out[:200]
+        return
     if st != 'ok':
         r['verdict'] = 'error'
         r['detail'] = f'cbmc produced no VC ({st}): ' + out[-800:]
